@@ -22,6 +22,9 @@ EXPLANATION = (
     'inside the exception wrapper; (g) the sent-futures handed to the application are settled by the close sequence '
     '(both queues drained) and by the sender on every edge out of the write. Not decided: behaviour per byte offset '
     '(all cut points funnel into the three receiver exits) and timing.')
+EXPLANATION_ADDED = ("(h) the reconnect listener's exits fail the registered streams; (i) a cancellation delivered inside the sender or the keepalive loops ends the task; wrap_transport_exception really raises RSocketTransportError; _fail_unsent_frames drains both queues (only while non-empty, until empty) and fails every pending sent-future; close() stops the tasks and then closes an obtained transport; the loop's isinstance dispatch agrees with the handler roles derived from behaviour.")
+EXPLANATION = EXPLANATION.replace(' Not decided', ' ' + EXPLANATION_ADDED + ' Not decided', 1) \
+    if ' Not decided' in EXPLANATION else EXPLANATION + ' ' + EXPLANATION_ADDED
 ASSUMPTIONS = COMMON_ASSUMPTIONS + [
     'application call-outs raise subclasses of Exception that are not library exception classes',
 ]
